@@ -176,3 +176,49 @@ func TestVerifC14Extract(t *testing.T) {
 		}
 	}
 }
+
+// ---------------------------------------------------------------- Tie 1: which FindStop the tree has
+//
+// TestVerifC14Variant EXECUTES the real common.FindStop (and TruncateStop on its result) on inputs that
+// tell the two variants of the Lean model apart (`findStopV pinned`: first listed stop vs earliest
+// occurrence), on ties, on the empty stop and on a miss.  vlib/checks/c14.py writes the answers to
+// Generated/C14_Variant.lean; Tie/C14Variant.lean decides by `decide` which variant agrees with the
+// tree and derives the tree-level theorem from it.  The oracle is asked for that variant.
+func TestVerifC14Variant(t *testing.T) {
+	probes := []struct {
+		seq   string
+		stops []string
+	}{
+		{"}\n\n", []string{"\n\n", "}"}}, // F7 witness: first listed "\n\n"@1, earliest "}"@0
+		{"}\n\n", []string{"}", "\n\n"}},
+		{"xaby", []string{"by", "ab"}},
+		{"xaby", []string{"ab", "a"}}, // both start at 1: the first listed
+		{"xaby", []string{"a", "ab"}},
+		{"a<|b", []string{"|b", "<|", "a<|b!"}},
+		{"hello", []string{"z"}},
+		{"hello", nil},
+		{"", []string{""}},
+		{"abc", []string{"c", "", "a"}},
+		{"a\xe2\x82\xacb\xe2\x82\xac", []string{"\xacb", "\xe2\x82\xac"}},
+	}
+	f, err := os.Create(filepath.Join(zzverif.OutDir(), "variant.txt"))
+	if err != nil {
+		t.Fatal(err)
+	}
+	defer f.Close()
+	hx := func(s string) string { return zzverif.Hex([]byte(s)) }
+	for _, p := range probes {
+		ok, stop := FindStop(p.seq, p.stops)
+		var hs []string
+		for _, s := range p.stops {
+			hs = append(hs, hx(s))
+		}
+		res, kept := "none", "-"
+		if ok {
+			res = "some " + hx(stop)
+			ps, _ := TruncateStop([]string{p.seq}, stop)
+			kept = hx(strings.Join(ps, ""))
+		}
+		fmt.Fprintf(f, "%s\t%s\t%s\t%s\n", hx(p.seq), strings.Join(hs, ","), res, kept)
+	}
+}
